@@ -531,8 +531,9 @@ def c06(res, tier, seed):
     b = build_harness(PKG)
     # single-byte tags of testeditions.TestAllTypes: 08 field 1 varint, 0a/0d wrong wire types, 10 field 2, 1a field 3 (wrong type),
     # 72 field 14 string, 82/83/84 01: field 16 bytes / start group / end group, 92 01: field 18 message; lengths, payload, continuation
-    alpha = [0, 1, 2, 8, 10, 13, 15, 16, 26, 114, 127, 128, 130, 131, 132, 255]
-    mc_decode(res, b, "te", BASE_TE, alpha + ([146, 192] if tier != "quick" else []), 3 if tier == "quick" else 4, [0, 1, 2])
+    # c0 03: field 56 (a map) with the varint wire type - an unknown field that must not count as a nesting level (F34)
+    alpha = [0, 1, 2, 3, 8, 10, 13, 15, 16, 26, 114, 127, 128, 130, 131, 132, 192, 255]
+    mc_decode(res, b, "te", BASE_TE, alpha + ([146] if tier != "quick" else []), 3 if tier == "quick" else 4, [0, 1, 2])
     # containers exactly at and one beyond the recursion limit: group start/end of field 16 (83 01 / 84 01), message field 18 (92 01 len),
     # nested inside each other, under limits 1..3
     mc_decode(res, b, "nest", BASE_TE, [0, 1, 2, 8, 131, 132, 146], 4 if tier == "quick" else 6, [1, 2, 3])
